@@ -86,6 +86,7 @@ Proof.
   - (* AFloat F32, VFloat *) inj_acc. apply negb_false_iff in HL. apply N.eqb_eq in HL. rewrite HL. refl_sv.
   - (* AStr, VStr *) destruct (str_ok s); try discriminate. inj_acc. refl_sv.
   - (* ADictStr, VStr *) destruct (str_ok s); try discriminate. inj_acc. refl_sv.
+  - (* AStruct, VBytes *) destruct b; discriminate.
   - (* ATimestamp *) apply orb_false_iff in HL as [Ha Hs]. apply negb_false_iff in Ha. apply eqb_prop in Ha. subst.
     destruct (unit_store u us) as [us'|]; try discriminate. apply negb_false_iff in Hs. apply Z.eqb_eq in Hs. subst.
     inj_acc. refl_sv.
